@@ -15,6 +15,9 @@ import (
 
 const verifDir = "/verif"
 
+// outDir: where evidence/replays/work go (redirected when checking a scratch copy of the repository)
+var outDir = envOr("GOVC_OUT", "/verif")
+
 type Finding struct {
 	Property   string `json:"property"`
 	Obligation string `json:"obligation"`
@@ -83,7 +86,14 @@ type propDriver struct {
 	notes  []string
 }
 
-var propDrivers = map[string]*propDriver{}
+var propDrivers = map[string]*propDriver{
+	"C19": {extra: func(w *World, tier string) []VC { return w.frameVCs() },
+		notes: []string{
+			"C19 is decided as a frame condition: every write site of every repository function is shown to hit activation-fresh memory by a freshness dataflow over the SSA (back end govc-dataflow, not SMT)",
+			"the step from 'all writes are activation-local and shared values are immutable after construction' to race-freedom and history-independence is a paper argument (a data race needs a write to a location another goroutine can reach)",
+			"library callees are assumed pure / safe for concurrent use as documented (list in frame.go: pureLib, receiverLocalLib)",
+		}},
+}
 
 func checkCmd(args []string) int {
 	fs := flag.NewFlagSet("check", flag.ExitOnError)
@@ -97,7 +107,7 @@ func checkCmd(args []string) int {
 	}
 	seed, _ := strconv.Atoi(os.Getenv("VERIF_SEED"))
 	start := time.Now()
-	evPath := filepath.Join(verifDir, "evidence", prop+".json")
+	evPath := filepath.Join(outDir, "evidence", prop+".json")
 	os.MkdirAll(filepath.Dir(evPath), 0o755)
 	os.Remove(evPath)
 
@@ -130,7 +140,7 @@ func checkCmd(args []string) int {
 		timeout = 60 * time.Second
 		wantAgree = true
 	}
-	workDir := filepath.Join(verifDir, "work", prop)
+	workDir := filepath.Join(outDir, "work", prop)
 	os.RemoveAll(workDir)
 	results := runVCs(vcs, workDir, timeout, 8)
 	sort.Slice(results, func(i, j int) bool { return results[i].vc.Name < results[j].vc.Name })
@@ -232,6 +242,9 @@ func checkCmd(args []string) int {
 		}
 		_, inBase := baseline[name]
 		fd := isFinding(name)
+		if r.vc.Kind == "frame" && r.res.Status != "unsat" {
+			inBase = true // a write site that violates the frame discipline is decisive even when the site is new
+		}
 		if !inBase && fd == nil {
 			// never claimed: reported as not decided, not as a violation
 			if r.res.Status != "unsat" {
@@ -290,6 +303,10 @@ func checkCmd(args []string) int {
 		if isFinding(name) != nil {
 			continue
 		}
+		if baseline[name] == "frame" {
+			// write sites are numbered per function; a function whose sites changed is judged by its current sites
+			continue
+		}
 		rp := writeMissingReplay(prop, name, unsupported, w.loadErrs)
 		fmt.Printf("VIOLATION property=%s replay=%s obligation=%s status=not-generated no-failing-input-found\n", prop, rp, name)
 		violations = append(violations, name)
@@ -326,7 +343,7 @@ func checkCmd(args []string) int {
 	}
 	ev := Evidence{PropertyID: prop, Tier: *tier, Seed: seed, Level: "proof", Assumptions: assumptions, WallS: time.Since(start).Seconds(), Violations: len(violations)}
 	ev.Coverage = map[string]any{
-		"obligations":              nObl,
+		"obligations":              nObl - nBounded,
 		"discharged":               nDischarged,
 		"bounded_obligations":      nBounded,
 		"checker_cmd":              "bin/govc check " + prop + " --tier " + *tier,
@@ -403,7 +420,7 @@ type replayResult struct {
 }
 
 func writeMissingReplay(prop, name string, unsupported, loadErrs []string) string {
-	dir := filepath.Join(verifDir, "replays", prop)
+	dir := filepath.Join(outDir, "replays", prop)
 	os.MkdirAll(dir, 0o755)
 	path := filepath.Join(dir, sanitizeFile(name)+".json")
 	b, _ := json.MarshalIndent(map[string]any{
